@@ -8,7 +8,6 @@
             pureOde*tau (zero without explicit terms); the initial state is copied; nothing
             writes x[k] directly.
 """
-from ..rules import step as S
 from ..rules import model as M
 from . import C01
 
@@ -27,9 +26,9 @@ def check(repo, res, tier):
     cls = M.sim_class(repo)
     C01.effect_table_checks(repo, res, cls, names={"get_ode_eqn", "get_StateChangeMatrix"})
     C01._check_accum(repo, res, cls)
-    ctx = S.Ctx(repo)
-    S.check_update(ctx, res)
-    S.check_first_reaction(ctx, res)
-    S.check_tau_leap(ctx, res)
-    S.check_checkjump(ctx, res, rule="R-STEP")
-    S.check_jump(ctx, res)
+    from ..rules import stepx as X
+    res.rule("R-WALK", "every recorded state of a simulated path is the previous one plus (state-change matrix x counts) (+ drift*tau): with zero column sums the total is kept exactly")
+    X.check_update(repo, res)
+    X.check_checkjump(repo, res, rule="R-STEP")
+    n = X.check_walks(repo, res)
+    res.floor("walk scenarios interpreted", n, 15)
